@@ -30,6 +30,150 @@ rev!(arg_type, 0, { fn a(&self, x: u64) -> u32; fn b(&self, s: String) -> String
 rev!(ret_type, 0, { fn a(&self, x: u32) -> u64; fn b(&self, s: String) -> String; });
 rev!(reordered, 0, { fn b(&self, s: String) -> String; fn a(&self, x: u32) -> u32; });
 
+// a richer base revision (closures, boxed closures, futures, a method without arguments) and one breaking
+// variant per kind of change and position (first / last method, first / last argument, nested positions)
+macro_rules! rich {
+    ($m:ident, { $($body:tt)* }) => {
+        pub mod $m {
+            use super::*;
+            use std::future::Future;
+            use std::pin::Pin;
+            #[savefile_abi_exportable(version = 0)]
+            pub trait Ledger { $($body)* }
+            pub fn verify(dir: &str) -> Result<(), String> {
+                savefile_abi::verify_compatiblity::<dyn Ledger>(dir).map_err(|e| format!("{:?}", e))
+            }
+        }
+    };
+}
+rich!(rich_base, {
+    fn first(&self, x: u32) -> u32;
+    fn noargs(&self) -> u32;
+    fn cb(&self, f: &dyn Fn(u32) -> u32) -> u32;
+    fn bcb(&self, f: Box<dyn Fn(u32) -> u32>) -> u32;
+    fn fut(&self, x: u32) -> Pin<Box<dyn Future<Output = u32>>>;
+    fn last(&self, a: u8, b: u16) -> u8;
+});
+rich!(rich_plus, {
+    fn first(&self, x: u32) -> u32;
+    fn noargs(&self) -> u32;
+    fn cb(&self, f: &dyn Fn(u32) -> u32) -> u32;
+    fn bcb(&self, f: Box<dyn Fn(u32) -> u32>) -> u32;
+    fn fut(&self, x: u32) -> Pin<Box<dyn Future<Output = u32>>>;
+    fn last(&self, a: u8, b: u16) -> u8;
+    fn added(&self, s: &str) -> String;
+});
+rich!(rich_noargs_gains_arg, {
+    fn first(&self, x: u32) -> u32;
+    fn noargs(&self, x: u8) -> u32;
+    fn cb(&self, f: &dyn Fn(u32) -> u32) -> u32;
+    fn bcb(&self, f: Box<dyn Fn(u32) -> u32>) -> u32;
+    fn fut(&self, x: u32) -> Pin<Box<dyn Future<Output = u32>>>;
+    fn last(&self, a: u8, b: u16) -> u8;
+});
+rich!(rich_trailing_arg_added, {
+    fn first(&self, x: u32) -> u32;
+    fn noargs(&self) -> u32;
+    fn cb(&self, f: &dyn Fn(u32) -> u32) -> u32;
+    fn bcb(&self, f: Box<dyn Fn(u32) -> u32>) -> u32;
+    fn fut(&self, x: u32) -> Pin<Box<dyn Future<Output = u32>>>;
+    fn last(&self, a: u8, b: u16, c: u32) -> u8;
+});
+rich!(rich_trailing_arg_removed, {
+    fn first(&self, x: u32) -> u32;
+    fn noargs(&self) -> u32;
+    fn cb(&self, f: &dyn Fn(u32) -> u32) -> u32;
+    fn bcb(&self, f: Box<dyn Fn(u32) -> u32>) -> u32;
+    fn fut(&self, x: u32) -> Pin<Box<dyn Future<Output = u32>>>;
+    fn last(&self, a: u8) -> u8;
+});
+rich!(rich_last_arg_type, {
+    fn first(&self, x: u32) -> u32;
+    fn noargs(&self) -> u32;
+    fn cb(&self, f: &dyn Fn(u32) -> u32) -> u32;
+    fn bcb(&self, f: Box<dyn Fn(u32) -> u32>) -> u32;
+    fn fut(&self, x: u32) -> Pin<Box<dyn Future<Output = u32>>>;
+    fn last(&self, a: u8, b: u32) -> u8;
+});
+rich!(rich_last_ret_type, {
+    fn first(&self, x: u32) -> u32;
+    fn noargs(&self) -> u32;
+    fn cb(&self, f: &dyn Fn(u32) -> u32) -> u32;
+    fn bcb(&self, f: Box<dyn Fn(u32) -> u32>) -> u32;
+    fn fut(&self, x: u32) -> Pin<Box<dyn Future<Output = u32>>>;
+    fn last(&self, a: u8, b: u16) -> i8;
+});
+rich!(rich_noargs_ret_type, {
+    fn first(&self, x: u32) -> u32;
+    fn noargs(&self) -> u64;
+    fn cb(&self, f: &dyn Fn(u32) -> u32) -> u32;
+    fn bcb(&self, f: Box<dyn Fn(u32) -> u32>) -> u32;
+    fn fut(&self, x: u32) -> Pin<Box<dyn Future<Output = u32>>>;
+    fn last(&self, a: u8, b: u16) -> u8;
+});
+rich!(rich_last_removed, {
+    fn first(&self, x: u32) -> u32;
+    fn noargs(&self) -> u32;
+    fn cb(&self, f: &dyn Fn(u32) -> u32) -> u32;
+    fn bcb(&self, f: Box<dyn Fn(u32) -> u32>) -> u32;
+    fn fut(&self, x: u32) -> Pin<Box<dyn Future<Output = u32>>>;
+});
+rich!(rich_first_removed, {
+    fn noargs(&self) -> u32;
+    fn cb(&self, f: &dyn Fn(u32) -> u32) -> u32;
+    fn bcb(&self, f: Box<dyn Fn(u32) -> u32>) -> u32;
+    fn fut(&self, x: u32) -> Pin<Box<dyn Future<Output = u32>>>;
+    fn last(&self, a: u8, b: u16) -> u8;
+});
+rich!(rich_cb_ret, {
+    fn first(&self, x: u32) -> u32;
+    fn noargs(&self) -> u32;
+    fn cb(&self, f: &dyn Fn(u32) -> String) -> u32;
+    fn bcb(&self, f: Box<dyn Fn(u32) -> u32>) -> u32;
+    fn fut(&self, x: u32) -> Pin<Box<dyn Future<Output = u32>>>;
+    fn last(&self, a: u8, b: u16) -> u8;
+});
+rich!(rich_cb_arg, {
+    fn first(&self, x: u32) -> u32;
+    fn noargs(&self) -> u32;
+    fn cb(&self, f: &dyn Fn(u64) -> u32) -> u32;
+    fn bcb(&self, f: Box<dyn Fn(u32) -> u32>) -> u32;
+    fn fut(&self, x: u32) -> Pin<Box<dyn Future<Output = u32>>>;
+    fn last(&self, a: u8, b: u16) -> u8;
+});
+rich!(rich_bcb_ret, {
+    fn first(&self, x: u32) -> u32;
+    fn noargs(&self) -> u32;
+    fn cb(&self, f: &dyn Fn(u32) -> u32) -> u32;
+    fn bcb(&self, f: Box<dyn Fn(u32) -> String>) -> u32;
+    fn fut(&self, x: u32) -> Pin<Box<dyn Future<Output = u32>>>;
+    fn last(&self, a: u8, b: u16) -> u8;
+});
+rich!(rich_bcb_argcount, {
+    fn first(&self, x: u32) -> u32;
+    fn noargs(&self) -> u32;
+    fn cb(&self, f: &dyn Fn(u32) -> u32) -> u32;
+    fn bcb(&self, f: Box<dyn Fn(u32, u32) -> u32>) -> u32;
+    fn fut(&self, x: u32) -> Pin<Box<dyn Future<Output = u32>>>;
+    fn last(&self, a: u8, b: u16) -> u8;
+});
+rich!(rich_fut_out, {
+    fn first(&self, x: u32) -> u32;
+    fn noargs(&self) -> u32;
+    fn cb(&self, f: &dyn Fn(u32) -> u32) -> u32;
+    fn bcb(&self, f: Box<dyn Fn(u32) -> u32>) -> u32;
+    fn fut(&self, x: u32) -> Pin<Box<dyn Future<Output = String>>>;
+    fn last(&self, a: u8, b: u16) -> u8;
+});
+rich!(rich_ref_to_value, {
+    fn first(&self, x: u32) -> u32;
+    fn noargs(&self) -> u32;
+    fn cb(&self, f: &dyn Fn(u32) -> u32) -> u32;
+    fn bcb(&self, f: Box<dyn Fn(u32) -> u32>) -> u32;
+    fn fut(&self, x: u32) -> Pin<Box<dyn Future<Output = u32>>>;
+    fn last(&self, a: u8, b: Vec<u16>) -> u8;
+});
+
 pub mod receivers {
     use super::*;
     #[savefile_abi_exportable(version = 0)]
@@ -165,6 +309,32 @@ pub fn run(ctx: &mut Ctx) {
             );
         }
     }
+    // the richer base: one breaking variant per kind of change and position
+    let rich_breaking: Vec<(&str, Verify)> = vec![
+        ("method without arguments gains one", rich_noargs_gains_arg::verify),
+        ("trailing argument added", rich_trailing_arg_added::verify),
+        ("trailing argument removed", rich_trailing_arg_removed::verify),
+        ("type of last argument changed", rich_last_arg_type::verify),
+        ("return type of last method changed", rich_last_ret_type::verify),
+        ("return type of method without arguments changed", rich_noargs_ret_type::verify),
+        ("last method removed", rich_last_removed::verify),
+        ("first method removed", rich_first_removed::verify),
+        ("return type of closure argument changed", rich_cb_ret::verify),
+        ("argument type of closure argument changed", rich_cb_arg::verify),
+        ("return type of boxed closure argument changed", rich_bcb_ret::verify),
+        ("argument count of boxed closure argument changed", rich_bcb_argcount::verify),
+        ("output type of returned future changed", rich_fut_out::verify),
+        ("last argument changed from u16 to Vec<u16>", rich_ref_to_value::verify),
+    ];
+    for (bname, bv) in rich_breaking.iter() {
+        if let Some(i) = next(ctx) {
+            run_history(ctx, &format!("rich base then {}", bname), vec![s("rich base", rich_base::verify, true), s("rich base again", rich_base::verify, true), s(bname, *bv, false), s("rich base once more", rich_base::verify, true)], i);
+        }
+        if let Some(i) = next(ctx) {
+            // the breaking change is relative to an older recorded state: a compatible revision was recorded in between
+            run_history(ctx, &format!("rich base, +method, then {}", bname), vec![s("rich base", rich_base::verify, true), s("method added", rich_plus::verify, true), s(bname, *bv, false)], i);
+        }
+    }
     if let Some(i) = next(ctx) {
         run_history(ctx, "methods reordered", vec![s("base", base::verify, true), s("reordered", reordered::verify, true), s("base", base::verify, true)], i);
     }
@@ -192,6 +362,24 @@ pub fn run(ctx: &mut Ctx) {
                 steps.push(s(&format!("older v{} after newer", l.version), l.verify, true));
             }
             run_history(ctx, &format!("family {}: repeated and revisited", fam), steps, i);
+        }
+        // the newest revision against an empty directory, repeated (all recorded files must describe their own version)
+        if let (Some(i), Some(last)) = (next(ctx), revs.last()) {
+            run_history(ctx, &format!("family {}: newest from empty directory, repeated", fam), (0..3).map(|k| s(&format!("v{} run {}", last.version, k + 1), last.verify, true)).collect(), i);
+        }
+        // version gap: the directory was last populated two revisions earlier
+        if revs.len() >= 3 {
+            if let Some(i) = next(ctx) {
+                let mut steps: Vec<Step> = vec![];
+                for l in revs.iter().step_by(2) {
+                    steps.push(s(&format!("v{}", l.version), l.verify, true));
+                    steps.push(s(&format!("v{} again", l.version), l.verify, true));
+                }
+                for l in revs.iter() {
+                    steps.push(s(&format!("v{} afterwards", l.version), l.verify, true));
+                }
+                run_history(ctx, &format!("family {}: every other version", fam), steps, i);
+            }
         }
         // start directly at the newest revision (empty directory), then older revisions
         if let Some(i) = next(ctx) {
